@@ -118,6 +118,9 @@ def _impl_cov(args):
 
 def run_impl(mod, cases):
     name = mod.__name__
+    if LINECOV and getattr(mod, 'LINECOV_CHILDREN', False) and 'VERIF_LINECOV_DIR' not in os.environ:
+        import tempfile
+        os.environ['VERIF_LINECOV_DIR'] = tempfile.mkdtemp(prefix='verif-linecov-')   # removed in run_check
     if len(cases) < 3000 or NPROC <= 1 or getattr(mod, 'SERIAL', False):
         try:
             pairs = [_impl_cov((name, c)) for c in cases]
@@ -130,6 +133,7 @@ def run_impl(mod, cases):
     for _r, d in pairs:
         if d:
             LINE_HITS.update(d)
+    LINE_HITS.update(linecov.collect_children())
     return [r for r, _d in pairs]
 
 
@@ -555,6 +559,8 @@ def run_check(pid, tier, seed, replay=None):
                 write_evidence(mod, tier, seed, result, t0)
             except Exception as e:  # evidence must never mask the verdict
                 print('EVIDENCE-ERROR: %s' % e)
+    if os.environ.get('VERIF_LINECOV_DIR', '').startswith(os.path.join(__import__('tempfile').gettempdir(), 'verif-linecov-')):
+        __import__('shutil').rmtree(os.environ.pop('VERIF_LINECOV_DIR'), ignore_errors=True)
     for l in lines:
         print(l)
     print('%s tier=%s seed=%d obligations=%s/%s evaluations=%s distinct_nontrivial=%s disagreements=%s oracle_failures=%s wall=%.1fs exit=%d' % (
